@@ -1,5 +1,6 @@
 #!/bin/bash
-# MANIFEST.setup_cmd: offline pre-build of the harness lanes from files on disk only.
+# MANIFEST.setup_cmd: offline pre-build of the stable lane of the harness from files on disk
+# only (the sanitizer lanes build on first use; each check rebuilds incrementally anyway).
 set -e
 cd "$(dirname "$0")/harness"
 export RUSTUP_TOOLCHAIN=stable-x86_64-unknown-linux-gnu CARGO_NET_OFFLINE=true
